@@ -5,11 +5,14 @@
 use alloc::rc::Rc;
 use core::cell::Cell;
 
-/// Source stream over at most 3 items that counts how often it is pulled and how many items it
+/// capacity of the counting source (quick harnesses use at most 3 items, thorough ones up to 6)
+pub(crate) const SRC_MAX: usize = 6;
+
+/// Source stream over at most SRC_MAX items that counts how often it is pulled and how many items it
 /// has handed out, and reports an ARBITRARY LAWFUL size_hint (lower <= remaining <= upper).
 #[derive(Clone)]
 pub(crate) struct Src {
-    items: [u8; 3],
+    items: [u8; SRC_MAX],
     len: usize,
     pos: usize,
     lower_slack: usize,
@@ -25,7 +28,7 @@ impl Src {
         let len: usize = kani::any();
         kani::assume(len <= max);
         let lower_slack: usize = kani::any();
-        kani::assume(lower_slack <= 3);
+        kani::assume(lower_slack <= SRC_MAX);
         let upper: Option<usize> = kani::any();
         if let Some(u) = upper {
             kani::assume(u <= 2);
@@ -52,7 +55,7 @@ impl Src {
     pub(crate) fn len(&self) -> usize {
         self.len
     }
-    pub(crate) fn items(&self) -> [u8; 3] {
+    pub(crate) fn items(&self) -> [u8; SRC_MAX] {
         self.items
     }
     /// arbitrary source of up to `max` items with an EXACT size_hint
@@ -62,7 +65,7 @@ impl Src {
         Self::of(kani::any(), len)
     }
     /// a source over the first `len` of the given items with exact size_hint
-    pub(crate) fn of(items: [u8; 3], len: usize) -> Self {
+    pub(crate) fn of(items: [u8; SRC_MAX], len: usize) -> Self {
         Src { items, len, pos: 0, lower_slack: 0, upper: Some(0), calls: Rc::new(Cell::new(0)), given: Rc::new(Cell::new(0)) }
     }
 }
